@@ -109,6 +109,21 @@ func genLoad(r *rand.Rand, tier string) *sx.Node {
 			readers = []string{all[:k], all[k:]}
 		}
 	}
+	if r.Intn(60) == 0 {
+		// a single reader of more than a megabyte: a valid script padded with comment lines, and the
+		// same followed by something that is not a script
+		pad := sx.Tag("rep", sx.Int(int64(30000+r.Intn(30000))), sx.Str("// forty characters of padding, line after line\n"))
+		head := sx.Str("title: Big\n---\nfirst line\n")
+		tail := "last line\n===\ntitle: After\n---\nstill here\n===\n"
+		if r.Intn(2) == 0 {
+			tail += "this is not a script <<\n"
+		}
+		if r.Intn(3) == 0 {
+			// the megabyte boundary falls inside the padding of a node body that ends much later
+			tail = "-> option\n    deep\n" + tail
+		}
+		return sx.Tag("load", sx.Bytes([]byte(randomSeed(r))), sx.List(sx.Tag("cat", head, pad, sx.Str(tail))))
+	}
 	seed := []byte(randomSeed(r))
 	switch r.Intn(12) {
 	case 0:
